@@ -358,6 +358,39 @@ func (x *Exec) runBlock(st *State, fr *Frame, b *ssa.BasicBlock, pred *ssa.Basic
 		return
 	}
 	li := loopsOf(fr.fn)
+	// leaving a loop: its exit clauses are obligations on this edge
+	if pred != nil {
+		for h, ord := range li.headers {
+			if !x.isActiveHeader(st, fr, h) || b == h {
+				continue
+			}
+			inBody := func(q *ssa.BasicBlock) bool {
+				if q == h {
+					return true
+				}
+				for _, bb := range li.body[h] {
+					if bb == q {
+						return true
+					}
+				}
+				return false
+			}
+			if inBody(pred) && !inBody(b) {
+				if spec := x.loopSpec(fr, ord); spec != nil && len(spec.Exit) > 0 {
+					env := x.frameEnv(st, fr)
+					for i, cl := range spec.Exit {
+						lbl := cl.Label
+						if lbl == "" {
+							lbl = fmt.Sprint(i)
+						}
+						g, note := safeEval(env, cl)
+						x.emit(st, fmt.Sprintf("loop_exit:%sloop%d.%s", fr.prefix, ord, lbl), "loop_exit", g,
+							fmt.Sprintf("loop %d exit condition %q in %s%s", ord, cl.Src, fr.fn.Name(), note))
+					}
+				}
+			}
+		}
+	}
 	if ord, isHeader := li.headers[b]; isHeader {
 		if x.loopHeader(st, fr, b, pred, ord, li, k) {
 			return
